@@ -344,8 +344,11 @@ func Run(rep *hx.Report, props Props, tier string, sh hx.Shard, deadline time.Ti
 			rep.Bound += "; boundary product of the configuration fields x 3 modes with the 2^20 core/process values on a diagonal only"
 		}
 	case props.C15:
+		if sh.I == 0 {
+			r.ck.manyResets(M, 600)
+		}
 		if thorough {
-			rep.Bound = "recording listener + StateRecorder on: all programs of length 1..2 over 16 letters alone; all ordered pairs of programs of length 1..2 over 12 letters x offsets x P 1..2; triples over 8 letters; 12-letter programs with Reset after every cycle count 0..6; load offsets M, M+3, 2M+7, 5M"
+			rep.Bound = "one simulator through 600 battles separated by Reset; recording listener + StateRecorder on: all programs of length 1..2 over 16 letters alone; all ordered pairs of programs of length 1..2 over 12 letters x offsets x P 1..2; triples over 8 letters; 12-letter programs with Reset after every cycle count 0..6; load offsets M, M+3, 2M+7, 5M"
 			p2 := Programs(alpha, 12, 2)
 			r.singles(M, Programs(alpha, 16, 2), full, 16)
 			r.pairs(M, p2, []uint64{1, 2}, []uint64{16}, full, false)
@@ -353,7 +356,7 @@ func Run(rep *hx.Report, props Props, tier string, sh hx.Shard, deadline time.Ti
 			r.resets(M, Programs(alpha, 12, 2), 6)
 			r.bigOffsets(M, Programs(alpha, 12, 2))
 		} else {
-			rep.Bound = "recording listener + StateRecorder on: all programs of length 1..2 over 12 letters alone; all ordered pairs of programs of length 1..2 over 8 letters x offsets at P=2; triples over 5 letters; 8-letter programs with Reset after every cycle count 0..4; load offsets M, M+3, 2M+7, 5M"
+			rep.Bound = "one simulator through 600 battles separated by Reset; recording listener + StateRecorder on: all programs of length 1..2 over 12 letters alone; all ordered pairs of programs of length 1..2 over 8 letters x offsets at P=2; triples over 5 letters; 8-letter programs with Reset after every cycle count 0..4; load offsets M, M+3, 2M+7, 5M"
 			r.singles(M, Programs(alpha, 12, 2), full, 12)
 			r.pairs(M, Programs(alpha, 8, 2), []uint64{2}, []uint64{12}, full, false)
 			r.triples(M, alpha, 5, []uint64{2}, 8, full)
